@@ -18,6 +18,9 @@ var Assumptions = []string{
 	"channel-based sync shim replaces sync.Mutex/RWMutex/Once inside package sarama (overlay) so that lock waits are durably blocking",
 }
 
+// retryGates: with a fault in the alphabet messages travel the retry path, whose merge points must be owned by the controller
+const retryGates = "pp.send,pp.fin,pp.flush,bridge.take,retryBatch.out,retryBatch.start"
+
 const (
 	MMB = 200   // Producer.MaxMessageBytes of the message/batch family
 	MRS = 12288 // lowered sarama.MaxRequestSize of the wire family (sarama batches up to MRS-10240 = 2048)
@@ -57,8 +60,8 @@ func Scenarios() []gx.Sc {
 	// a retriable error for one partition while a message of ANOTHER partition waits for space in the broker worker: what
 	// the failed partition gives back is not room in the other partition's batch
 	out = append(out,
-		gx.Sc{Name: "lim?ver=0.11.0.0&mmb=200&vs=6,6,39,39,40&parts=0,0,1,1,1&policy=input&faults=notleader", Q: 2, T: 3},
-		gx.Sc{Name: "lim?ver=0.10.2.0&mmb=200&vs=6,6,73,73,74&parts=0,0,1,1,1&policy=input&faults=notleader", Q: 2, T: 3},
+		gx.Sc{Name: "lim?ver=0.11.0.0&mmb=200&vs=6,6,39,39,40&parts=0,0,1,1,1&policy=input&faults=notleader&gates=" + retryGates, Q: 2, T: 3},
+		gx.Sc{Name: "lim?ver=0.10.2.0&mmb=200&vs=6,6,73,73,74&parts=0,0,1,1,1&policy=input&faults=notleader&gates=" + retryGates, Q: 2, T: 3},
 	)
 	// a systematic layer: five messages per generation, sizes straddling the batch estimate, two partitions,
 	// every trigger kind, latency (policy input) and early close
